@@ -4,10 +4,17 @@
 set -euo pipefail
 V=$(cd "$(dirname "$0")/.." && pwd)
 OUT=${1:?usage: build.sh <scratch-dir>}
-export PATH=/root/go/pkg/mod/golang.org/toolchain@v0.0.1-go1.25.0.linux-amd64/bin:$PATH
+TC=/root/go/pkg/mod/golang.org/toolchain@v0.0.1-go1.25.0.linux-amd64
+mkdir -p "$OUT/gen"
+# The toolchain lives inside the module cache, and the go command refuses overlay
+# entries for files beneath GOMODCACHE; reach it through a symlink so that the
+# three patched runtime files (see sim/cmd/genoverlay) can be overlaid.
+# (a fixed place, so that the build cache keeps serving the compiled standard library)
+GR=${TMPDIR:-/tmp}/verif-goroot-go1.25.0
+[ "$(readlink "$GR" 2>/dev/null)" = "$TC" ] || ln -sfn "$TC" "$GR"
+export GOROOT="$GR" PATH="$GR/bin:$PATH"
 export GOTOOLCHAIN=local GOFLAGS=-mod=mod GOPROXY=off GOSUMDB=off CGO_ENABLED=0
 REPO=${VERIF_REPO:-/repo}
-mkdir -p "$OUT/gen"
 [ -d "$V/third_party/memberlist" ] || "$V/bin/mkthird.sh" >&2
 cd "$V/sim"
 cmp -s "$REPO/go.sum" go.sum || { cp "$REPO/go.sum" go.sum.$$ && mv go.sum.$$ go.sum; }
